@@ -26,10 +26,12 @@ CASE_IMPORTS = [("PW.model", "M_polyline_base"), ("PW.model", "M_segment"), ("PW
 DEFINITIONAL = ["C07_pairwise_is_rowwise"]
 ASSUMPTIONS = ["theorems are about exact real arithmetic; binary64 rounding is covered only by the tolerance of the "
                "correspondence check on sampled inputs",
-               "sub-path clauses: sliced_at_points is proved for open (forward / refusal) and closed (forward / wrap-around) "
-               "polylines under explicit hypotheses about the working polyline (theorems named _partial); for "
-               "aligned_along_subsegment the flip decision is proved, that the flipped polyline then yields the shorter / "
-               "forward sub-path is checked by the oracle only"]
+               "sub-path clauses: sliced_at_points is proved about the ORIGINAL polyline (unique nearest point of b, nearest points "
+               "not within the code's vertex tolerance) for open polylines in full and for closed polylines when nearest(a) "
+               "is not on the closing edge (_partial); for aligned_along_subsegment only the flip decision is proved, that "
+               "the flipped polyline then yields the forward / shorter sub-path is checked by the oracle only",
+               "nearest: values of a stacked case are compared per query; queries whose winning segment rounding could "
+               "change are skipped individually (K_C07.decided_query)"]
 
 _IMPORTS = [("PW.model", "M_polyline_base"), ("PW.model", "M_segment"), ("PW.model", "M_polyline_nearest"),
             ("PW.proofs", "P_segment")]
